@@ -378,9 +378,20 @@ def compare(ex, st, op, a, b, node=None):
     return scalar_compare(ex, st, op, a0, b0)
 
 
+def unwrap_opt(ex, st, v, what="value"):
+    """An optional value used where a number is needed: Python would raise TypeError on None, so None must be
+    excluded here (obligation), then the payload is used."""
+    if isinstance(v, OptV):
+        ex.oblig("not_none", what, st, z3.Not(v.none))
+        return v.val
+    return v
+
+
 def scalar_compare(ex, st, op, a, b):
     if isinstance(a, OptV) or isinstance(b, OptV):
-        raise Unsupported("comparison of optional value")
+        if op in ("Eq", "NotEq"):
+            raise Unsupported("equality of optional value")
+        a, b = unwrap_opt(ex, st, a, "compare"), unwrap_opt(ex, st, b, "compare")
     if op == "Eq":
         r = z3eq(a, b)
         return _simpb(r)
@@ -1402,6 +1413,16 @@ def b_sum(ex, st, args, kwargs, node):
         return r
     N, elem = ex.iter_desc(v, st)
     return vec_sum(ex, st, Vec(N, elem))
+
+
+@builtin("slice")
+def b_slice(ex, st, args, kwargs, node):
+    a = [st.get(x) for x in args]
+    if len(a) == 1:
+        return SliceV(None, a[0])
+    if len(a) == 2:
+        return SliceV(a[0], a[1])
+    return SliceV(a[0], a[1], a[2])
 
 
 @builtin("callable")
